@@ -21,14 +21,19 @@
      never lose, duplicate or resurrect a reference among themselves.
    * likewise any number of concurrent `tag_object(p, ·)` calls on one pid, whatever
      the cids (`tags_of_one_pid_serialise`, `…_linearizable`).
+   * any number of concurrent `store_object(p, ·)` calls on one pid are linearizable up to
+     the documented refusal (`stores_of_one_pid_serialise_up_to_refusal`): each call is
+     either refused as "already in progress" — the one extra outcome the property
+     permits — or takes part in a sequential order with the others.
   Not proved: linearizability of mixes of store / tag / delete on shared identifiers
   outside the refuted windows (the common identifier of two taggers of one *cid* is
-  an inner one; store_object's in-progress test is not a wait).
+  an inner one; a store refused while the pid is being *deleted* is K5).
 -/
 import HSModel.Proofs.ConcLemmas
 import HSModel.Proofs.LockLemmas
 import HSModel.Proofs.Shape
 import HSModel.Proofs.SerialSpec
+import HSModel.Proofs.SerialTest
 namespace HS.C07
 
 /-- a thread running alone from any of its scheduling points computes the
@@ -189,6 +194,50 @@ theorem tags_of_one_pid_linearizable (cfg : Config) (o : Oracle) (p : Str) (call
   linearizable_of_bracketed cfg o .refPid p calls
     (fun x hx => tagsPid_bracketedU cfg o p x (hc x hx)) hplain st log a hs ho fuel sched
 
+/-! ### storers of one pid -/
+
+/-- **Concurrent stores of one pid serialise, up to the documented refusal.** Any
+    number of threads, each a `store_object(p, ·)` call with whatever data and
+    validation arguments (or one rejected for its pid); any start world in which
+    `p` is not claimed in the object-pid class; any schedule, any step budget.
+    When all have returned there is an order of the calls and, per call, one of
+    three programs — the call itself if it returned without a primitive
+    (rejected arguments), the refusal `StoreObjectForPidAlreadyInProgress` if its
+    in-progress test found the pid claimed, its continuation after the answer
+    "not in progress" otherwise — such that the world is the one the sequential
+    run of those programs in that order reaches, results included. By
+    `accepted_store_is_the_whole_call` that continuation is the whole call
+    whenever the pid is free, as it is between the calls of a sequential run. -/
+theorem stores_of_one_pid_serialise_up_to_refusal (cfg : Config) (o : Oracle) (p : Str) (calls : List Call)
+    (hc : ∀ x ∈ calls, StoresPid p x) (w0 : World) (h0 : p ∉ w0.lk.objPid) (fuel : Nat) (sched : List Nat) :
+    let progs0 := calls.map (Call.tprog cfg o)
+    let refusal : Except Exc Val := .error .storeObjectInProgress
+    let fin := (runSchedule fuel { w := w0, ts := progs0.map .fresh } sched 0).1
+    fin.allFinished = true →
+    ∃ (progs' : List (Prog (Except Exc Val))) (order : List Nat),
+      progs'.length = calls.length ∧
+      (∀ (j : Nat) (q : Prog (Except Exc Val)), progs0[j]? = some q →
+        progs'[j]? = some q ∨ ∃ k k2, TestShape p refusal Post0 q k k2 ∧
+          (progs'[j]? = some (.ret refusal) ∨ progs'[j]? = some (k (.bool false)))) ∧
+      order.Nodup ∧ (∀ j, j ∈ order ↔ j < calls.length) ∧
+      fin.w = (seqRun progs' order w0).1 ∧
+      ∀ (j : Nat) (t : TState), fin.ts[j]? = some t → ∃ v, t = TState.finished v ∧ (j, v) ∈ (seqRun progs' order w0).2 := by
+  intro progs0 refusal fin hall
+  have hb : ∀ q ∈ progs0, q.Tested p refusal Post0 := by
+    intro q hq
+    obtain ⟨x, hx, rfl⟩ := List.mem_map.mp hq
+    exact storesPid_tested cfg o p x (hc x hx)
+  obtain ⟨progs', order, h1, h2, h3, h4, h5, h6⟩ :=
+    tested_schedule p refusal Post0 progs0 w0 hb (List.count_eq_zero.mpr h0) fuel sched hall
+  exact ⟨progs', order, by rw [h1]; simp [progs0], h2, h3, fun j => by rw [h4 j]; simp [progs0], h5, h6⟩
+
+/-- with the pid free, a store_object call runs exactly as its continuation after
+    the answer "not in progress" -/
+theorem accepted_store_is_the_whole_call (p : Str) (q : Prog (Except Exc Val)) (k k2 : Resp → Prog (Except Exc Val))
+    (hs : TestShape p (.error .storeObjectInProgress) Post0 q k k2) (w : World) (hfree : p ∉ w.lk.objPid) :
+    q.run w = (k (.bool false)).run w :=
+  run_tested_free p _ Post0 q k k2 hs w hfree
+
 /-! the hypotheses are satisfiable: two deletes of a bound pid and one rejected
     call, an interleaved schedule after which all have returned — one delete
     succeeds, the other reports the pid unknown (a test on literals) -/
@@ -222,5 +271,26 @@ example : ∀ x ∈ callsT, TagsPid "p1".toList x := by
   have hp : checkString p1 = .ok "p1".toList := by decide
   simp only [callsT, List.mem_cons, List.not_mem_nil, or_false] at hx
   rcases hx with rfl | rfl | rfl <;> (intro q h; rw [hp] at h; cases h; rfl)
+
+/-! … and two stores of one pid, the second asking while the first is at work, and one call
+    with a rejected pid: stored, refused, rejected -/
+def callsSt : List Call :=
+  [.storeObject p1 (.ok 1) .none .none .none .none, .storeObject p1 (.ok 2) .none .none .none .none,
+   .storeObject (.str "a b".toList) (.ok 1) .none .none .none .none]
+def serialDemoSt : Conf × Nat := runSchedule 1000
+  { w := { st := Store.empty }, ts := (callsSt.map (Call.tprog cfgW oW)).map .fresh } (sched "2000110000000000000000") 0
+example : serialDemoSt.1.allFinished = true ∧ serialDemoSt.2 = 22 ∧
+    storedOk (serialDemoSt.1.ts.map resOf)[0]? = true ∧
+    (serialDemoSt.1.ts.map resOf)[1]? = some (some (.error .storeObjectInProgress)) ∧
+    (serialDemoSt.1.ts.map resOf)[2]? = some (some (.error .valueError)) := by decide
+example : ∀ x ∈ callsSt, StoresPid "p1".toList x := by
+  intro x hx
+  have hp : checkString p1 = .ok "p1".toList := by decide
+  have hb : checkString (.str "a b".toList) = .error .valueError := by decide
+  simp only [callsSt, List.mem_cons, List.not_mem_nil, or_false] at hx
+  rcases hx with rfl | rfl | rfl
+  · exact ⟨(by intro h; cases h), fun q h => by rw [hp] at h; cases h; rfl⟩
+  · exact ⟨(by intro h; cases h), fun q h => by rw [hp] at h; cases h; rfl⟩
+  · exact ⟨(by intro h; cases h), fun q h => by rw [hb] at h; cases h⟩
 
 end HS.C07
